@@ -95,6 +95,9 @@ func checkC01(c *ev.Ctx) {
 			return
 		}
 		run := runXZWriter(k)
+		if run.Sink != nil {
+			noteCarry(c, k.Family, run.Sink.Buf)
+		}
 		det := k.desc()
 		inputDetail(det, run.Data)
 		if run.NewErr != nil {
